@@ -25,6 +25,7 @@ type Config struct {
 	Seed             int64
 	Params           map[string]int64
 	MaxPaths         int64
+	MaxWall          time.Duration // wall-clock budget of one Explore call (0: none)
 	ModulePath       string // functions under this path are reported as "encoded from /repo"
 	Trace            bool
 	ClockMode        string // "", "mono", "wall"
@@ -90,6 +91,7 @@ type Sample struct {
 
 // Engine is shared by all workers of one harness run.
 type Engine struct {
+	UsesTryLock bool // the module calls sync TryLock/TryRLock: lock holders become preemptible right after acquiring
 	Prog    *ssa.Program
 	Cfg     Config
 	Harness string
@@ -115,6 +117,7 @@ type Engine struct {
 
 	firstViolation time.Time
 	StoppedEarly   bool
+	started        time.Time
 }
 
 type ConcTrace struct {
@@ -353,6 +356,19 @@ func (w *Worker) nextPrefix(kind byte) (Decision, bool) {
 }
 
 func (w *Worker) pushSibling(d Decision) {
+	if w.E.stop && !w.concrete {
+		// the exploration was stopped (counterexample in hand, or budget): do not finish a long path
+		panic(pathAbort{"stopped", "exploration stopped"})
+	}
+	if w.E.Cfg.MaxWall > 0 && !w.concrete && time.Since(w.E.started) > w.E.Cfg.MaxWall+time.Minute {
+		w.E.mu.Lock()
+		if !w.E.stop {
+			w.E.stop = true
+			w.E.Problems = append(w.E.Problems, fmt.Sprintf("wall-clock budget of %v for one harness function exhausted inside a path: the remaining paths were not explored", w.E.Cfg.MaxWall))
+		}
+		w.E.mu.Unlock()
+		panic(pathAbort{"stopped", "exploration stopped"})
+	}
 	if len(w.taken) > w.E.Cfg.MaxDecisions {
 		// a chain of forks this deep is a loop over symbolic data: sibling prefixes
 		// are copied per fork, so memory is quadratic in the depth
@@ -802,7 +818,7 @@ func (w *Worker) runPath(prefix []Decision) {
 			switch r := r.(type) {
 			case pathAbort:
 				switch r.Kind {
-				case "assume", "infeasible", "done":
+				case "assume", "infeasible", "done", "stopped":
 					outcome = r.Kind
 				case "budget":
 					if w.E.Cfg.HangIsViolation {
@@ -903,6 +919,15 @@ func (w *Worker) runPath(prefix []Decision) {
 		w.E.stop = true
 		w.E.StoppedEarly = true
 	}
+	if w.E.Cfg.MaxWall > 0 && !w.E.stop && !w.concrete && time.Since(w.E.started) > w.E.Cfg.MaxWall {
+		w.E.stop = true
+		w.E.Problems = append(w.E.Problems, fmt.Sprintf("wall-clock budget of %v for one harness function exhausted after %d paths: the remaining paths were not explored", w.E.Cfg.MaxWall, w.E.Stats.Paths))
+	}
+	if len(w.E.Problems) > 200 && !w.E.stop {
+		// the run is inconclusive already; do not enumerate an exploding tree to the end
+		w.E.stop = true
+		w.E.Problems = append(w.E.Problems, "more than 200 inconclusive paths: exploration stopped")
+	}
 	if w.E.Cfg.MaxPaths > 0 && w.E.Stats.Paths >= w.E.Cfg.MaxPaths && !w.E.stop {
 		w.E.stop = true
 		w.E.Problems = append(w.E.Problems, fmt.Sprintf("path limit %d reached", w.E.Cfg.MaxPaths))
@@ -934,6 +959,7 @@ func (w *Worker) runHarness() {
 
 // Explore runs the harness over all paths with n workers.
 func (e *Engine) Explore() error {
+	e.started = time.Now()
 	e.stack = [][]Decision{{}}
 	n := e.Cfg.Workers
 	if n <= 0 {
